@@ -330,6 +330,17 @@ def gen_c15(rnd, n, thorough=False):
                 ll.append('hfetch f %d %d %d %d' % (a_, 0, un, now))
         ll.append('hupd f -1 %d %016x %d' % (now, fbits(3.0), now))
         cases.append({'id': 'c15-innerwrap-%d' % j, 'lines': ll, 'tags': {'ops': {'hfetch': 30}, 'kind': 'inner_retention_wrap'}})
+    # a whole item of damaged files (more than any worker pool: what a full disk leaves behind): the sum reports
+    # an error -- it does not hang --, through a directory and through a server, and again
+    nf = rnd.randint(65, 100)
+    good = image_py(2, 0x3f000000, [(1, 4), (2, 4)], {})
+    ll = []
+    for j in range(nf):
+        dmg = rnd.pick([good[:16], good[:rnd.randint(1, 39)], good[:40], good[:12] + be32(0) + good[16:], be32(9) + good[4:], good[:len(good) - rnd.randint(1, 12)]])
+        ll.append('rawfile s/i1/f%03d.wsp %s' % (j, hx(dmg)))
+    for rem in (0, 1, 0):
+        ll.append('clisum base=s item=i1 src=*.wsp from=0 until=0 archive=-1 header=1 remote=%d' % rem)
+    cases.append({'id': 'c15-manydamaged', 'lines': ll, 'tags': {'ops': {'rawfile': nf, 'clisum': 3}, 'kind': 'item_of_damaged_files'}})
     # counts whose size in bytes wraps 64 (or 32, 63) bits, with nothing / a little / a point behind them
     lines = []
     wraps = [2 ** 62, 2 ** 62 + 1, 2 ** 63, 2 ** 63 + 2 ** 62, 3 * 2 ** 62 + 1, (2 ** 64 + 8) // 12, (2 ** 64 + 12) // 12, (2 ** 65 + 4) // 12 + 1, (2 ** 64) // 12 + 1,
@@ -436,6 +447,19 @@ def gen_c06(rnd, n, thorough=False):
                     ll += ["gwcreate f %s m %d x %08x" % (fmt_layout(lay), m, xd), "gwmany f %d %d %s" % (nw, len(ptsd), " ".join("%d %016x" % tv for tv in ptsd)), "gwclose f"]
                 ll += ["clixread f %d %d %d" % (nw - 95, nw, nw), "clixread f %d %d %d" % (nw - 9, nw, nw)]
                 cases.append({'id': 'c06-%d-xff-%s' % (c, wr[:2]), 'lines': ll, 'tags': {'layout': 'tens_exact', 'writer': wr + '_decimal_xff', 'levels': len(lay), 'method': m}})
+        if c % 8 == 1:
+            # a file written (by either writer) around the wall clock and read by the view command through a server
+            # and through the directory: the reference reader's values, at the times the file holds
+            lay = [(1, 30), (5, 24)] if rnd.chance(0.5) else [(1, 60)]
+            wr = rnd.pick(['gw', 'wt'])
+            ptsw = [("@-%d" % rnd.randint(0, 25), fbits(float(rnd.randint(1, 99)))) for _j in range(rnd.randint(2, 8))]
+            if wr == 'gw':
+                ll = ["gwcreate f %s m 2 x 3f000000" % fmt_layout(lay), "gwmany f @ %d %s" % (len(ptsw), " ".join("%s %016x" % tv for tv in ptsw)), "gwclose f"]
+            else:
+                ll = ["create f %s m 2 x 3f000000" % fmt_layout(lay), "many f -1 @ %d %s" % (len(ptsw), " ".join("%s %016x" % tv for tv in ptsw)), "sync f", "drop f"]
+            ll += ["clixread f @-29 @ @", "cliview src=.:f from=0 until=0 archive=%d header=1 remote=1" % rnd.pick([-1, 0]), "cliview src=.:f from=0 until=0 archive=-1 header=1 remote=0",
+                   "cliview src=.:f from=@-20 until=@-3 archive=0 header=0 remote=1"]
+            cases.append({'id': 'c06-%d-remote' % c, 'lines': ll, 'tags': {'layout': 'wallclock', 'writer': {'gw': 'go-whisper', 'wt': 'whispertool'}[wr] + '_read_remotely', 'levels': len(lay), 'method': 2}})
         if rnd.chance(0.08):
             # a file written by the copy command with nothing to copy (never-written source, missing destination):
             # it is a complete classic file all the same (header on disk, every slot empty)
